@@ -57,10 +57,28 @@ about 3 s; the self-test runs all variants in about 10 s. Iterate until
 'wvcheck -p $P' is clean (or reports only genuine defects) and 'wvcheck selftest -p $P'
 kills every mutant with all controls silent.
 
+Genuine defects (only if your rules report something real on the unchanged tree): for each one,
+besides the "repair" variant in the mutants file, prepare the evidence the maintainer needs to
+repair weshnet: create a scratch git worktree of /repo for yourself
+(git -C /repo worktree add /tmp/fix-$P HEAD ; remove it at the end with
+git -C /repo worktree remove --force /tmp/fix-$P), and in it write (a) a small Go test that
+demonstrates the defect against the real code — it must FAIL on the unchanged sources and
+PASS with your fix, and must terminate quickly in both cases (bound every wait with a
+timeout; a hung test costs 10 minutes) — and (b) the minimal fix a maintainer would accept
+(corrects the behaviour; does not remove it, special-case the failing input, or touch
+anything the defect does not require). Run the package's existing tests with the fix
+(go test -count=1 ./<pkg>; the root package takes ~45 s). Save into $WV/fixes/$P/<short-name>/ :
+demo_test.go (with a header comment saying which directory of /repo it belongs in), fix.diff
+(git diff of the fix only), and notes.txt (what fails, how you ran it, outputs before/after).
+If a defect cannot be demonstrated by running code in this sandbox, or the fix is not small
+and safe, say so instead — it will then be listed as a known finding. /repo HEAD already
+contains three earlier "fix:" commits (handshake low-order check, GroupJoin type test,
+IsExpired direction); DESIGN.md section 5 predates them.
+
 Final report (your last message; it is read by the framework's maintainer, not the user):
   - rules implemented (id, one line each, instance counts on today's tree) and clauses dropped, with reasons
   - every report on the unchanged tree, triaged (genuine defect: the failing input/sequence; the exact minimal fix)
   - self-test result line
   - any change you need in the shared framework files (exact diff), any bug you found in them
-Do not write any other files; do not touch /verif or /repo; do not commit anything.
+Do not write any other files (except the scratch worktree /tmp/fix-$P and $WV/fixes/$P); do not touch /verif or /repo's working tree; do not commit anything.
 TXT
